@@ -1,10 +1,10 @@
 package main
 
 import (
-	"os"
 	"fmt"
 	"go/types"
 	"math/big"
+	"os"
 	"strings"
 )
 
@@ -280,10 +280,24 @@ func (vc *VC) iMul(a, b *Term) *Term {
 	if vc.isBV() {
 		return App("bvmul", a.S, a, b)
 	}
+	_, aLit := intLitVal(a)
+	_, bLit := intLitVal(b)
 	if av, ok := intLitVal(a); ok {
 		if bv, ok := intLitVal(b); ok {
 			return IntLit(new(big.Int).Mul(av, bv))
 		}
+	}
+	if !aLit && !bLit && !vc.realMul {
+		// product of two symbolic integers: kept uninterpreted (imul); the non-linear facts a proof needs are
+		// supplied by separately proved lemmas (use / hint), so the solvers stay in linear arithmetic
+		f := vc.declareFun("imul", []*Sort{SInt, SInt}, SInt)
+		if !vc.declSeen["imul!ax"] {
+			vc.declSeen["imul!ax"] = true
+			x, y := Atom("x!m", SInt), Atom("y!m", SInt)
+			vc.facts = append(vc.facts, Forall([]*Term{x, y}, Eq(App(f, SInt, x, y), App(f, SInt, y, x)), []*Term{App(f, SInt, x, y)}))
+			vc.assumed["int mode: products of two symbolic integers are uninterpreted (commutative) unless a lemma supplies more"] = true
+		}
+		return App(f, SInt, a, b)
 	}
 	return App("*", SInt, a, b)
 }
@@ -448,6 +462,13 @@ func (vc *VC) convInt(v *Term, from, to types.Type) *Term {
 	if !ts {
 		if !fs && fw <= tw {
 			return v
+		}
+		if fs && fw <= tw {
+			// signed -> unsigned of at least the same width: add 2^tw to negative values
+			if lv, ok := intLitVal(v); ok {
+				return IntLit(new(big.Int).Mod(lv, pow2(tw)))
+			}
+			return Ite(App(">=", SBool, v, IntLit64(0)), v, App("+", SInt, v, IntLit(pow2(tw))))
 		}
 		if lv, ok := intLitVal(v); ok {
 			return IntLit(new(big.Int).Mod(lv, pow2(tw)))
